@@ -72,7 +72,100 @@ fn drain<I: Iterator>(mut it: I, f: impl Fn(I::Item) -> Item) -> (Vec<Item>, boo
     (v, extra)
 }
 
+/// Every provided `Iterator` method an implementation could override (count, last, nth, size_hint,
+/// fold, for_each, find, position, skip, step_by, max_by) must agree with what `next()` alone yields,
+/// and `next()` after a method that ran off the end must keep returning None.
+fn adaptors<I: Iterator>(name: &str, mk: &dyn Fn() -> I, conv: &dyn Fn(I::Item) -> Item, want: &[Item], st: &mut GridStats) -> Option<(String, String)> {
+    let n = want.len();
+    let bad = |what: &str, detail: String| Some((format!("{}:{}", name, what), detail));
+    st.adaptor_calls += 1;
+    let c = mk().count();
+    if c != n {
+        return bad("count", format!("count() = {}, model {}", c, n));
+    }
+    let l = mk().last().map(conv);
+    if l.as_ref() != want.last() {
+        return bad("last", format!("last() = {:?}, model {:?}", l.as_ref().map(|i| show(i.key())), want.last().map(|i| show(i.key()))));
+    }
+    let (lo, hi) = mk().size_hint();
+    if lo > n || hi.map(|h| h < n).unwrap_or(false) {
+        return bad("size_hint", format!("size_hint() = ({}, {:?}) but {} entries follow", lo, hi, n));
+    }
+    let mut ks: Vec<usize> = vec![0, 1, n / 2, n.saturating_sub(1), n, n + 3];
+    ks.dedup();
+    for k in ks {
+        st.adaptor_calls += 4;
+        let mut it = mk();
+        let got = it.nth(k).map(conv);
+        if got.as_ref() != want.get(k) {
+            return bad("nth", format!("nth({}) = {:?}, model {:?}", k, got.as_ref().map(|i| show(i.key())), want.get(k).map(|i| show(i.key()))));
+        }
+        // the rest through next(), then next() after the end
+        let rest: Vec<Item> = it.by_ref().map(conv).collect();
+        let want_rest: &[Item] = if k + 1 <= n { &want[k + 1..] } else { &[] };
+        if rest != want_rest {
+            return bad("after-nth", format!("after nth({}) the iterator yields {} entries, model {}", k, rest.len(), want_rest.len()));
+        }
+        for _ in 0..3 {
+            if it.next().is_some() {
+                return bad("yields-after-end", format!("next() after nth({}) and exhaustion yielded an entry", k));
+            }
+        }
+        // a hint taken midway
+        let mut it = mk();
+        let taken = k.min(n);
+        for _ in 0..taken {
+            it.next();
+        }
+        let (lo, hi) = it.size_hint();
+        if lo > n - taken || hi.map(|h| h < n - taken).unwrap_or(false) {
+            return bad("size_hint", format!("after {} entries size_hint() = ({}, {:?}) but {} follow", taken, lo, hi, n - taken));
+        }
+        let sk: Vec<Item> = mk().skip(k).map(conv).collect();
+        if sk != want[k.min(n)..] {
+            return bad("skip", format!("skip({}) yields {} entries, model {}", k, sk.len(), n - k.min(n)));
+        }
+        if k >= 1 {
+            let sb: Vec<Item> = mk().step_by(k).map(conv).collect();
+            let wb: Vec<Item> = want.iter().step_by(k).cloned().collect();
+            if sb != wb {
+                return bad("step_by", format!("step_by({}) yields {} entries, model {}", k, sb.len(), wb.len()));
+            }
+        }
+    }
+    let folded = mk().fold(Vec::new(), |mut v, d| {
+        v.push(conv(d));
+        v
+    });
+    if folded != want {
+        return bad("fold", format!("fold visits {} entries, model {}", folded.len(), n));
+    }
+    let mut each = Vec::new();
+    mk().for_each(|d| each.push(conv(d)));
+    if each != want {
+        return bad("for_each", format!("for_each visits {} entries, model {}", each.len(), n));
+    }
+    if n > 0 {
+        let target = want[n - 1].clone();
+        let pos = mk().map(conv).position(|i| i == target);
+        if pos != Some(n - 1) {
+            return bad("position", format!("position(last entry) = {:?}, model {}", pos, n - 1));
+        }
+        let mut it = mk();
+        let mut seen = 0usize;
+        let found = it.find(|_| {
+            seen += 1;
+            seen == n
+        });
+        if found.map(conv).as_ref() != want.last() || it.next().is_some() {
+            return bad("find", "find(last entry) disagrees with the model or the iterator continues after it".into());
+        }
+    }
+    None
+}
+
 pub struct GridStats {
+    pub adaptor_calls: u64,
     pub seeks: u64,
     pub ranges: u64,
     pub filtered: u64,
@@ -98,6 +191,34 @@ pub fn grid(b: &Bucket, mb: &MBucket, stride: usize, st: &mut GridStats) -> Opti
             ));
         }
         st.items_compared += all.len() as u64;
+    }
+    // the provided Iterator methods on every kind of iterator
+    {
+        let kvs: Vec<Item> = all.iter().filter(|i| matches!(i, Item::Kv(..))).cloned().collect();
+        let bks: Vec<Item> = all.iter().filter(|i| matches!(i, Item::Bucket(..))).cloned().collect();
+        if let Some(v) = adaptors("cursor", &|| b.cursor(), &|d| item_of(&d), &all, st) {
+            return Some(v);
+        }
+        if let Some(v) = adaptors("kv_pairs", &|| b.kv_pairs(), &|kv| Item::Kv(kv.key().to_vec(), kv.value().to_vec()), &kvs, st) {
+            return Some(v);
+        }
+        if let Some(v) = adaptors("buckets", &|| b.buckets(), &|(n, _)| Item::Bucket(n.name().to_vec()), &bks, st) {
+            return Some(v);
+        }
+        // ranges: three pairs of bounds taken from the probe set
+        if probes.len() >= 2 {
+            for (ai, bi) in [(0usize, probes.len() - 1), (probes.len() / 3, probes.len() * 2 / 3), (probes.len() / 2, probes.len() - 1)] {
+                let (a, z): (&[u8], &[u8]) = (probes[ai].as_slice(), probes[bi].as_slice());
+                let want = mb.items_in(Bound::Included(a), Bound::Excluded(z));
+                if let Some(v) = adaptors("range", &|| b.range(a..z), &|d| item_of(&d), &want, st) {
+                    return Some(v);
+                }
+                let want = mb.items_in(Bound::Excluded(a), Bound::Unbounded);
+                if let Some(v) = adaptors("range", &|| b.range((Bound::Excluded(a), Bound::Unbounded)), &|d| item_of(&d), &want, st) {
+                    return Some(v);
+                }
+            }
+        }
     }
     // every seek
     for k in &probes {
@@ -237,7 +358,7 @@ pub fn run_case(c: &Case, path: &std::path::Path, st: &mut GridStats, shard: &mu
     let _ = std::fs::remove_file(path);
     let out = exec::run_history(&h, &ExecCfg::default(), path);
     if out.aborted {
-        return Err(format!("building the tree failed: {:?}", out.violations.first().map(|v| v.detail.clone())));
+        return Err(crate::report::workload_failure(out.violations.first(), "building the tree was cut short"));
     }
     // model of bucket t after build
     let mut model = MBucket::default();
@@ -487,19 +608,21 @@ pub fn run(ctx: &Ctx) -> Shard {
     let mut shard = Shard::new("C08");
     let scratch = Scratch::new("C08");
     let ps: u64 = 1024;
-    let mut st = GridStats { seeks: 0, ranges: 0, filtered: 0, after_end_calls: 0, items_compared: 0 };
+    let mut st = GridStats { adaptor_calls: 0, seeks: 0, ranges: 0, filtered: 0, after_end_calls: 0, items_compared: 0 };
     let mut cases: Vec<Case> = Vec::new();
     if let Some(rp) = &ctx.replay {
         let doc: serde_json::Value = serde_json::from_slice(&std::fs::read(rp).expect("read replay")).expect("parse replay");
         cases.push(serde_json::from_value(doc["case"]["grid_case"].clone()).expect("grid case"));
     } else {
-        let all = shape_cases(ps, ctx.thorough(), &scratch);
+        // (the sanitizer pass repeats the quick-tier trees: its allocator costs a factor of ten)
+        let deep = ctx.thorough() && ctx.get("build") != Some("asan");
+        let all = shape_cases(ps, deep, &scratch);
         for (i, c) in all.into_iter().enumerate() {
             if (i as u64) % ctx.nshards == ctx.shard {
                 cases.push(c);
             }
         }
-        if ctx.thorough() {
+        if deep {
             let more = shape_cases(4096, false, &scratch);
             for (i, c) in more.into_iter().enumerate() {
                 if (i as u64 + 5) % ctx.nshards == ctx.shard {
@@ -528,7 +651,7 @@ pub fn run(ctx: &Ctx) -> Shard {
             }
             Err(e) => {
                 // the tree could not be prepared: not a C08 verdict
-                shard.inconclusive(format!("[{}] {}", c.label, e));
+                shard.inconclusive_or_workload(ctx, &format!("[{}]", c.label), &e, &serde_json::json!({"kind": "grid", "grid_case": c}));
             }
         }
         let _ = std::fs::remove_file(&path);
@@ -547,6 +670,7 @@ pub fn run(ctx: &Ctx) -> Shard {
     shard.count("range_scans", st.ranges);
     shard.count("filtered_iterations", st.filtered);
     shard.count("next_calls_after_exhaustion", st.after_end_calls);
+    shard.count("iterator_adaptor_comparisons(count,last,nth,size_hint,skip,step_by,fold,find..)", st.adaptor_calls);
     shard.count("items_compared", st.items_compared);
     shard.exhaustive = Some(all_full);
     shard
